@@ -184,6 +184,97 @@ def second_generation(tkey, oname):
     return n, vs
 
 
+def _with_option_record(tkey, edit):
+    """A stand-alone file of a default module of the type whose options record (CHDT after the CHNM naming the
+    options chunk) is replaced by edit(record)."""
+    from struct import unpack
+
+    import rv.api as rv
+    from rvref import codec
+
+    t = spec.types()[tkey]
+    chunks = codec.parse_chunks(C.save(rv.Synth(cls_of(tkey)())))
+    out, cur = [], None
+    for cid, d in chunks:
+        if cid == b"CHNM" and len(d) == 4:
+            (cur,) = unpack("<I", d)
+        elif cid == b"CHDT" and cur == t.options_chnm:
+            d = edit(d)
+            cur = None
+        out.append((cid, d))
+    return codec.build_chunks(out)
+
+
+def foreign_records(tkey):
+    """Modules LOADED from files whose options record is not what this library writes -- shorter (older layouts: every
+    length 0 .. full-1) or with both bits of an exclusive pair set -- and then edited through the API: the edited value
+    survives the next save/load, the next record covers the highest option byte, and the assigned option and its
+    exclusive partner are never both on."""
+    import rv.api as rv
+    from struct import unpack
+    from rvref import codec
+
+    t = spec.types()[tkey]
+    vs, n = [], 0
+    top_byte = max(o.byte for o in t.options)
+
+    def record_len(data):
+        cur = None
+        for cid, d in codec.parse_chunks(data):
+            if cid == b"CHNM" and len(d) == 4:
+                (cur,) = unpack("<I", d)
+            elif cid == b"CHDT" and cur == t.options_chnm:
+                return len(d)
+        return None
+
+    full = record_len(C.save(rv.Synth(cls_of(tkey)())))
+    for length in range(0, full):
+        data = _with_option_record(tkey, lambda d: d[:length])
+        for o in t.options:
+            n += 1
+            case = {"type": tkey, "foreign_record": ["short", length, o.name]}
+            try:
+                m = C.load_bytes(data).module
+            except Exception:
+                break       # whether such a file loads at all is C04's business
+            v = 1 if o.size == 1 else (o.max if o.max is not None else 2 ** o.size - 1)
+            if o.inverted and o.size == 1:
+                v = 0 if getattr(m, o.name) else 1
+            setattr(m, o.name, v)
+            want = int(getattr(m, o.name))
+            b2 = C.save(rv.Synth(m))
+            got = int(getattr(C.load_bytes(b2).module, o.name))
+            if got != want:
+                vs.append(C.viol("edit-after-short-record-lost", {"type": tkey, "option": o.name},
+                                 {"loaded_record_bytes": length, "assigned": v, "object": want, "read": got}, case))
+            rl = record_len(b2)
+            if rl is None or rl <= top_byte:
+                vs.append(C.viol("record-does-not-cover-highest-byte", {"type": tkey, "after": "short-record"},
+                                 {"loaded_record_bytes": length, "written_record_bytes": rl, "highest_option_byte": top_byte}, case))
+    for o in t.options:
+        for other in o.exclusive_of:
+            p = next(x for x in t.options if x.name == other)
+
+            def both(d, o=o, p=p):
+                d = bytearray(d)
+                d[o.byte] |= 1 << o.bit
+                d[p.byte] |= 1 << p.bit
+                return bytes(d)
+            data = _with_option_record(tkey, both)
+            for target, val in ((o.name, True), (other, True), (o.name, 1), (o.name, False)):
+                n += 1
+                case = {"type": tkey, "foreign_record": ["both-bits", o.name, other, target]}
+                m = C.load_bytes(data).module
+                setattr(m, target, val)
+                l = C.load_bytes(C.save(rv.Synth(m))).module
+                for who, x in (("live", m), ("loaded", l)):
+                    if getattr(x, o.name) and getattr(x, other):
+                        vs.append(C.viol("exclusive-both-on", {"type": tkey, "pair": sorted([o.name, other]),
+                                                                "path": "assignment-after-foreign-record", "who": who},
+                                         {"assigned": [target, bool(val)]}, case))
+    return n, vs
+
+
 def static_disjoint():
     vs = []
     n = 0
@@ -280,6 +371,8 @@ def run_case(case):
         return bounded_sweep(case["bounded"])[1]
     if case.get("ctor_exclusive"):
         return ctor_exclusive(case["type"])[1]
+    if case.get("foreign_record"):
+        return [v for v in foreign_records(case["type"])[1] if v["case"]["foreign_record"] == case["foreign_record"]]
     if case.get("second_generation"):
         return second_generation(case["type"], case["second_generation"][0])[1]
     return check_assignment(case["type"], [tuple(a) for a in case["assign"]])[0]
@@ -352,6 +445,11 @@ def _task(t):
         n, vs = bounded_sweep(t[1])
         r["evals"] += n
         r["violations"] += vs
+    elif kind == "foreign":
+        n, vs = foreign_records(t[1])
+        r["evals"] += n
+        C.count(r, "foreign_records", n)
+        r["violations"] += vs[:20]
     return r
 
 
@@ -374,6 +472,7 @@ def run(ctx):
         tasks.append(("patterns", tkey))
         tasks.append(("bfs", tkey, 4 if ctx.thorough else 3))
         tasks.append(("bounded", tkey))
+        tasks.append(("foreign", tkey))
     for r in ctx.pmap(_task, tasks):
         agg.merge(r)
     ctx.add(agg.violations)
@@ -387,5 +486,6 @@ def run(ctx):
         "option_types": len(opt_types()), "options": nopt, "static_pairs": n,
         "bfs_states": agg.counters.get("bfs_states", 0),
         "second_generation_edits": agg.counters.get("second_generation", 0),
+        "edits_after_foreign_option_records": agg.counters.get("foreign_records", 0),
         "samples": agg.samples,
     }
